@@ -140,7 +140,7 @@ def _conc_call(f):
         r = f(*[symnp.conc(v) for v in a], **{kk: symnp.conc(v) for kk, v in k.items()})
         return symnp._post(r)
     g.__name__ = getattr(f, "__name__", "lapack")
-    g.__wrapped__ = f
+    g._sx_wrapped = f
     return g
 
 
@@ -149,7 +149,7 @@ def _lsq_wrapper(real):
         res = real(symnp.conc(A), symnp.conc(b), bounds=tuple(symnp.conc(v) for v in bounds), **k)
         res.x = symnp._post(res.x)
         return res
-    lsq_linear.__wrapped__ = real
+    lsq_linear._sx_wrapped = real
     return lsq_linear
 
 
@@ -273,9 +273,9 @@ def load(symbolic=True, fresh=False):
             if "OptimizeResult" in d:
                 d["OptimizeResult"] = OptimizeResult
             for nm in ("eigh", "qr"):
-                if nm in d and not hasattr(d[nm], "__wrapped__"):
+                if nm in d and not hasattr(d[nm], "_sx_wrapped"):
                     d[nm] = _conc_call(d[nm])
-            if "lsq_linear" in d and not hasattr(d["lsq_linear"], "__wrapped__"):
+            if "lsq_linear" in d and not hasattr(d["lsq_linear"], "_sx_wrapped"):
                 d["lsq_linear"] = _lsq_wrapper(d["lsq_linear"])
             if m.__name__.endswith(".tests") or ".tests." in m.__name__:
                 continue
